@@ -1908,62 +1908,59 @@ impl Bgi {
                 text.pop();
             }
 
-            match self.button_style.orientation {
-                LabelOrientation::Above => todo!(),
-                LabelOrientation::Left => todo!(),
-                LabelOrientation::Right => todo!(),
-                LabelOrientation::Below => todo!(),
+            let old_col = self.get_color();
+            let text_size = self.get_text_size(&text);
+            // the label is centered on the button or placed next to it
+            let (tx, ty) = match self.button_style.orientation {
+                LabelOrientation::Above => (ox + (width - text_size.width) / 2, oy - text_size.height - 2),
+                LabelOrientation::Below => (ox + (width - text_size.width) / 2, oy + height + 2),
+                LabelOrientation::Left => (ox - text_size.width - 2, oy + (height - text_size.height) / 2),
+                LabelOrientation::Right => (ox + width + 2, oy + (height - text_size.height) / 2),
+                LabelOrientation::Center => (ox + (width - text_size.width) / 2, oy + (height - text_size.height) / 2),
+            };
 
-                LabelOrientation::Center => {
-                    let old_col = self.get_color();
-                    let text_size = self.get_text_size(&text);
-                    let tx = ox + (width - text_size.width) / 2;
-                    let ty = oy + (height - text_size.height) / 2;
+            if self.button_style.display_dropshadow() {
+                self.set_color(cs);
+                self.out_text_xy(tx + 1, ty + 1, &text);
+            }
 
-                    if self.button_style.display_dropshadow() {
-                        self.set_color(cs);
-                        self.out_text_xy(tx + 1, ty + 1, &text);
-                    }
-
-                    self.set_color(ch);
-                    self.out_text_xy(tx, ty, &text);
-                    // print hotkey
-                    if hotkey != 0 && hotkey != 255 {
-                        let hk_ch = (hotkey as char).to_ascii_uppercase();
-                        for (i, ch) in text.chars().enumerate() {
-                            if ch.to_ascii_uppercase() == hk_ch {
-                                let prefix_size: Size = self.get_text_size(&text[0..i]);
-                                if self.button_style.highlight_hotkey() {
-                                    self.set_color(ul);
-                                    self.out_text_xy(tx + prefix_size.width, ty, &ch.to_string());
-                                }
-
-                                if self.button_style.underline_hotkey() {
-                                    let hotkey_size = self.get_text_size(&text[i..=i]);
-                                    if self.button_style.display_dropshadow() {
-                                        self.draw_line(
-                                            tx + prefix_size.width + 1,
-                                            ty + hotkey_size.height + 2,
-                                            tx + prefix_size.width + hotkey_size.width,
-                                            ty + hotkey_size.height + 2,
-                                            cs,
-                                        );
-                                    }
-                                    self.draw_line(
-                                        tx + prefix_size.width,
-                                        ty + hotkey_size.height + 1,
-                                        tx + prefix_size.width + hotkey_size.width - 1,
-                                        ty + hotkey_size.height + 1,
-                                        ul,
-                                    );
-                                }
-                                break;
-                            }
+            self.set_color(ch);
+            self.out_text_xy(tx, ty, &text);
+            // print hotkey
+            if hotkey != 0 && hotkey != 255 {
+                let hk_ch = (hotkey as char).to_ascii_uppercase();
+                for (i, ch) in text.char_indices() {
+                    if ch.to_ascii_uppercase() == hk_ch {
+                        let prefix_size: Size = self.get_text_size(&text[0..i]);
+                        if self.button_style.highlight_hotkey() {
+                            self.set_color(ul);
+                            self.out_text_xy(tx + prefix_size.width, ty, &ch.to_string());
                         }
+
+                        if self.button_style.underline_hotkey() {
+                            let hotkey_size = self.get_text_size(&text[i..i + ch.len_utf8()]);
+                            if self.button_style.display_dropshadow() {
+                                self.draw_line(
+                                    tx + prefix_size.width + 1,
+                                    ty + hotkey_size.height + 2,
+                                    tx + prefix_size.width + hotkey_size.width,
+                                    ty + hotkey_size.height + 2,
+                                    cs,
+                                );
+                            }
+                            self.draw_line(
+                                tx + prefix_size.width,
+                                ty + hotkey_size.height + 1,
+                                tx + prefix_size.width + hotkey_size.width - 1,
+                                ty + hotkey_size.height + 1,
+                                ul,
+                            );
+                        }
+                        break;
                     }
-                    self.set_color(old_col);
                 }
             }
+            self.set_color(old_col);
         }
     }
 }
